@@ -428,6 +428,11 @@ class Acc:
         self.viol, self.margins, self.mon, self.cells, self.notes = [], {}, {}, [], []
         self.nontrivial = False
         self.guard_fail = None
+        self.info = {}
+
+    def note_max(self, name, val):
+        if name not in self.info or val > self.info[name]:
+            self.info[name] = float(val)
 
     def m(self, name, n=1):
         self.mon[name] = self.mon.get(name, 0) + n
@@ -720,7 +725,7 @@ def _judge(acc, mol, b, run, cache, do_sigma=True):
                       diff=dk, **wit)
                 rec["ok"] = False
                 break
-            acc.margin("cis_eig_vs_sqrt_nov_tol(info)", abs(dk), math.sqrt(nov) * tol + EIG_ABS)
+            acc.note_max("cis |E-lambda| / (sqrt(nov) tol + 1e-9)", abs(dk) / (math.sqrt(nov) * tol + EIG_ABS))
         # ---- orthonormal
         Gm = X @ X.T
         if acc.margin("cis_orthonormal", np.abs(Gm - np.eye(m)).max(), ORTHO_TOL):
@@ -729,6 +734,7 @@ def _judge(acc, mol, b, run, cache, do_sigma=True):
         R = X @ ref["A"].T - E[:, None] * X
         rinf = np.abs(R).max(axis=1)
         kworst = int(np.argmax(rinf))
+        acc.note_max("cis residual/tol after %s" % ("stagnation exit" if stag_exit else "residual-criterion exit"), rinf[kworst] / tol)
         if acc.margin("cis_residual", rinf[kworst], RES_ALLOW * tol + RES_ABS):
             acc.v("residual-above-tol", mech("residual-above-tol"), root=kworst + 1, residual_inf=float(rinf[kworst]),
                   bound=RES_ALLOW * tol + RES_ABS, all_residuals=rinf.tolist(), **wit)
@@ -770,7 +776,7 @@ def _judge(acc, mol, b, run, cache, do_sigma=True):
                 acc.v(cl, mech(cl), root=k + 1, E=float(E[k]), dense=float(om[k]), diff=dk, bound=bound, **wit)
                 rec["ok"] = False
                 break
-            acc.margin("rpa_eig_vs_sqrt_nov_tol(info)", abs(dk), math.sqrt(nov) * tol + EIG_ABS)
+            acc.note_max("rpa |E-omega| / (sqrt(nov) tol + 1e-9)", abs(dk) / (math.sqrt(nov) * tol + EIG_ABS))
         Gm = X @ X.T - Y @ Y.T
         if acc.margin("rpa_normalisation", np.abs(Gm - np.eye(m)).max(), ORTHO_TOL):
             acc.v("not-orthonormal", mech("not-orthonormal"), gram_dev=float(np.abs(Gm - np.eye(m)).max()), **wit)
@@ -780,6 +786,7 @@ def _judge(acc, mol, b, run, cache, do_sigma=True):
         r2 = u @ Kp.T - E[:, None] * v
         rinf = np.maximum(np.abs(r1).max(axis=1), np.abs(r2).max(axis=1))
         kworst = int(np.argmax(rinf))
+        acc.note_max("rpa residual/tol after %s" % ("stagnation exit" if stag_exit else "residual-criterion exit"), rinf[kworst] / tol)
         if acc.margin("rpa_residual", rinf[kworst], RES_ALLOW * tol + RES_ABS):
             acc.v("residual-above-tol", mech("residual-above-tol"), root=kworst + 1, residual_inf=float(rinf[kworst]),
                   bound=RES_ALLOW * tol + RES_ABS, all_residuals=rinf.tolist(), **wit)
@@ -861,7 +868,7 @@ def _scf_ok(info, b=None):
 # ---------------------------------------------------------------------------------------
 def _finish(acc, obs):
     res = {"nontrivial": acc.nontrivial, "violations": acc.viol, "margins": acc.margins, "monitors": acc.mon,
-           "cells": sorted(set(acc.cells)), "obs": dict(obs, notes=acc.notes, worst=acc.margins)}
+           "cells": sorted(set(acc.cells)), "obs": dict(obs, notes=acc.notes, worst=acc.margins, info=acc.info)}
     if acc.guard_fail:
         res["inconclusive"] = "oracle guard: " + acc.guard_fail
         res["violations"] = []
@@ -1061,3 +1068,22 @@ def run_case(case):
     if kind == "mbatch":
         return _mbatch(case, acc)
     raise ValueError("unknown case kind %r" % kind)
+
+
+def summarize(cases, results, report):
+    """aggregate the informational maxima, the loud solver outcomes and the mechanisms seen"""
+    info, raised, mechs = {}, {}, {}
+    for r in results:
+        if not isinstance(r, dict):
+            continue
+        o = r.get("obs") or {}
+        for k, v in (o.get("info") or {}).items():
+            if k not in info or v > info[k]:
+                info[k] = v
+        for n in o.get("notes") or []:
+            key = n[:160]
+            raised[key] = raised.get(key, 0) + 1
+        for v in r.get("violations") or []:
+            mechs[v.get("mech")] = mechs.get(v.get("mech"), 0) + 1
+    return {"informational_maxima": info, "loud_solver_outcomes": dict(sorted(raised.items(), key=lambda kv: -kv[1])[:25]),
+            "violation_mechanisms": mechs}
